@@ -7,7 +7,7 @@
 (* printed as <<"MISMATCH", json>> and classified against the open known   *)
 (* findings.  TraceAccepted requires that every line was consumed.         *)
 (***************************************************************************)
-EXTENDS Order, KnownFindings, Json, SequencesExt, FiniteSetsExt
+EXTENDS Order, KnownFindings, Json, SequencesExt, FiniteSetsExt, Dpkg
 
 CONSTANTS TraceFile,     \* path of the NDJSON trace
           Prop,          \* property id being judged, e.g. "C01"
@@ -48,8 +48,41 @@ MatrixC01(ev) ==
      \cup {[prop |-> "C01", eco |-> ev.eco, why |-> "panic", a |-> ev.panics[i], b |-> "", got |-> 0, rev |-> 0, known |-> ""]
              : i \in 1..Len(ev.panics)}
 
+(* Reference orders (C08-C14): the observed sign of every in-scope pair is the  *)
+(* sign the reference operator computes on the same two texts.                *)
+RefKey(prop, cs) == CASE prop = "C10" -> DKey(cs) [] prop = "C11" -> RKey(cs)
+RefScope(prop, cs) == CASE prop = "C10" -> DInScope(cs) [] prop = "C11" -> RInScope(cs)
+RefCmpKey(prop, x, y) == CASE prop = "C10" -> DCmpKey(x, y) [] prop = "C11" -> RCmpKey(x, y)
+
+MatrixRef(ev) ==
+  LET n   == ev.n
+      M   == ev.m
+      cs  == TLCEval([i \in 1..n |-> S2C(ev.texts[i])])
+      I   == {i \in 1..n : RefScope(Prop, cs[i])}
+      key == TLCEval([i \in I |-> RefKey(Prop, cs[i])])
+      bad == {p \in I \X I : RefCmpKey(Prop, key[p[1]], key[p[2]]) # M[p[1]][p[2]]}
+  IN IF PrintT(<<"INFO", ToJson([judged |-> Cardinality(I) * Cardinality(I), inscope |-> Cardinality(I)])>>) THEN
+     {[prop |-> Prop, eco |-> ev.eco, why |-> "ref", a |-> ev.texts[p[1]], b |-> ev.texts[p[2]],
+       got |-> M[p[1]][p[2]], want |-> RefCmpKey(Prop, key[p[1]], key[p[2]]), known |-> ""] : p \in bad}
+     ELSE {}
+
+(* Spec audit: the reference operator against answers of an executable         *)
+(* reference (dpkg, node-semver, packaging, Maven) or a published table.       *)
+(* A disagreement makes the *spec* suspect; it is never a verdict on the code. *)
+AuditRef(ev) ==
+  LET cs  == TLCEval([i \in 1..Len(ev.texts) |-> S2C(ev.texts[i])])
+      key == TLCEval([i \in 1..Len(ev.texts) |-> RefKey(Prop, cs[i])])
+      bad == {q \in 1..Len(ev.pairs) :
+                RefCmpKey(Prop, key[ev.pairs[q][1]], key[ev.pairs[q][2]]) # ev.pairs[q][3]}
+      oos == {i \in 1..Len(ev.texts) : ~RefScope(Prop, cs[i])}
+  IN {[prop |-> Prop, why |-> "audit", a |-> ev.texts[ev.pairs[q][1]], b |-> ev.texts[ev.pairs[q][2]],
+       ref |-> ev.pairs[q][3], spec |-> RefCmpKey(Prop, key[ev.pairs[q][1]], key[ev.pairs[q][2]]), known |-> ""] : q \in bad}
+     \cup {[prop |-> Prop, why |-> "audit-scope", a |-> ev.texts[i], b |-> "", ref |-> 0, spec |-> 0, known |-> ""] : i \in oos}
+
 Judge(ev) ==
   CASE ev.k = "matrix" /\ Prop = "C01" -> MatrixC01(ev)
+    [] ev.k = "audit" -> AuditRef(ev)
+    [] ev.k = "matrix" -> MatrixRef(ev)
     [] OTHER -> {[prop |-> Prop, why |-> "unjudged event kind", k |-> ev.k, known |-> ""]}
 
 TNext == /\ l <= Len(TraceLog)
